@@ -23,7 +23,9 @@ def module(rng, i):
         k = rng.random()
         if k < 0.4: extra.append(("const", "const K%d: %s = %s;\n" % (j, "i32", rng.randint(-50, 50))))
         elif k < 0.7: extra.append(("struct", "struct S%d\n{\n\tx: i32,\n\ty: [4]u8,\n}\n" % j))
-        elif k < 0.85: extra.append(("word", "word64 W%d\n{\n\ta: u32,\n\tb: u16,\n}\n" % j))
+        elif k < 0.85:
+            bits, members = rng.choice([(8, "a: u8,"), (16, "a: u8,\n\tb: u8,"), (32, "a: u16,\n\tb: u8,"), (64, "a: u32,\n\tb: u16,"), (128, "a: u64,\n\tb: u32,\n\tc: u16,")])
+            extra.append(("word", "word%d W%d\n{\n\t%s\n}\n" % (bits, j, members)))
         elif k < 0.92: extra.append(("opaque", "struct Opaque%d;\n" % j))      # a structure without body (opaque)
         else: extra.append(("import", 'import "other%d.pn";\n' % j))
     if rng.random() < 0.3: extra.append(("opaque", "struct Handle;\n"))
